@@ -489,6 +489,35 @@ PROPS["C17"] = dict(
     level_note="Trusted: oracle/ref.hpp with LocalOpts / underscore flag, the Makefile variable mechanism, sanitizers, shim.",
 )
 
+def _prepare_cli(ctx):
+    exe, lib = ctx["scr"].build_cli()
+    ctx["replay_args"] = ["--cli", exe, "--clilib", lib]
+
+
+PROPS["C20"] = dict(
+    level="exploration",
+    default_binary="c20",
+    binaries={"c20": dict(src=["props/c20.cpp"], variants=["dflt"])},
+    prepare=_prepare_cli,
+    stages=[
+        stage("shapes"),
+        stage("random", kind="rc", quick=1000, thorough=12000, max_size=100),
+    ],
+    rule="Files: 0-60 lines drawn from {empty, blanks only, '#' comment, ' #' not-a-comment, valid/invalid addresses of the C01 generator, lines of "
+         "1022-8192 bytes, 0.5-3.5 KiB lines with control characters, lines with a stray byte >= 0x80, embedded CR, control characters, 0-2 leading / "
+         "trailing blanks, embedded NUL, IDN addresses} x {LF, CRLF} per line x final newline present/absent (rapidcheck, shrunk to the offending "
+         "lines); single-line files for 20 line shapes and lengths around 1024/2048/4096/8192 in three fillings x three terminators; the "
+         "repository's data files. The ASan+UBSan build of bin/eav (make app) runs as a subprocess per file. Non-trivial = the file has an empty, "
+         "long, invalid-UTF-8 or control-character line, a CRLF terminator or no final newline; distinct by file hash.",
+    assumptions=["line model = the tool's documented trimming (terminator, one leading space, one trailing blank); '#' in column 1 is a comment",
+                 "verdict and message come from the in-process library with eav_init defaults, exactly what bin/main.c configures",
+                 "lines containing NUL are judged for robustness and verdict count only (tool and API are C-string based)"],
+    min_evaluations=dict(quick=100000, thorough=1000000),
+    technique="differential CLI vs in-process library over rapidcheck-generated files with a line model, sanitizer build of the tool as crash oracle",
+    level_text="Exploration: generated files through the real tool (sanitizer build) with an explicit line model and the library as verdict oracle.",
+    level_note="Trusted: the line model in props/c20.cpp, ASan/UBSan, posix_spawn plumbing.",
+)
+
 
 def stages_for(pid, tier):
     out = []
